@@ -622,21 +622,21 @@ fcn_harness!(c02_fcn_3_key_is_self, 3, None, [255, 254, 0]);
 // evidence that the property holds.
 // ---------------------------------------------------------------------------
 #[cfg(test)]
-mod verif_search {
+pub(super) mod verif_search {
     use super::*;
 
-    struct Rng(u64);
+    pub struct Rng(pub u64);
     impl Rng {
-        fn next(&mut self) -> u64 {
+        pub fn next(&mut self) -> u64 {
             self.0 ^= self.0 << 13;
             self.0 ^= self.0 >> 7;
             self.0 ^= self.0 << 17;
             self.0
         }
-        fn below(&mut self, n: u64) -> u64 {
+        pub fn below(&mut self, n: u64) -> u64 {
             self.next() % n
         }
-        fn bytes(&mut self) -> [u8; 32] {
+        pub fn bytes(&mut self) -> [u8; 32] {
             let mut b = [0u8; 32];
             for c in b.chunks_mut(8) {
                 c.copy_from_slice(&self.next().to_le_bytes());
@@ -644,7 +644,7 @@ mod verif_search {
             b
         }
         /// bucket position: boundary buckets are over-represented
-        fn pos(&mut self) -> usize {
+        pub fn pos(&mut self) -> usize {
             const P: [usize; 12] = [0, 0, 1, 2, 3, 7, 8, 127, 128, 253, 254, 255];
             if self.below(3) == 0 { self.below(256) as usize } else { P[self.below(12) as usize] }
         }
@@ -666,10 +666,10 @@ mod verif_search {
         }
         id
     }
-    fn hex(b: &[u8; 32]) -> String {
+    pub fn hex(b: &[u8; 32]) -> String {
         b.iter().map(|x| format!("{:02x}", x)).collect()
     }
-    fn all_ids(t: &KademliaRoutingTable) -> Vec<[u8; 32]> {
+    pub fn all_ids(t: &KademliaRoutingTable) -> Vec<[u8; 32]> {
         let mut v = Vec::new();
         for b in &t.buckets {
             for n in &b.nodes {
@@ -803,6 +803,7 @@ mod verif_search {
 #[cfg(test)]
 mod search_admission {
     use super::*;
+    use super::verif_search::{all_ids, hex, Rng};
 
     fn node_at(first_byte: u8, tag: u8, address: &str) -> NodeInfo {
         let mut id = [0u8; 32];
@@ -834,6 +835,104 @@ mod search_admission {
                 let second = e.add_node(node_at(0x40, 1, "10.100.0.1:9000")).await;
                 if let Err(err) = second {
                     panic!("VERIF-SEARCH-HIT C13/engine/an_admission_that_fails_part_way_returns_its_ip_diversity_slots history=[8 nodes fill bucket 0; node 10.100.0.1 refused by the full bucket; another node with address 10.100.0.1 for bucket 1 -> {}]", err);
+                }
+            }
+        });
+    }
+
+    /// C05 (request dispatch): store cap, find-node cap, retrieve round trip -- against a real engine.
+    #[test]
+    fn verif_search_reqh_c05() {
+        use crate::dht::network_integration::{DhtMessage, DhtResponse};
+        let seed: u64 = std::env::var("VERIF_SEED").ok().and_then(|s| s.parse().ok()).unwrap_or(0);
+        let mut r = Rng(0x2545_f491_4f6c_dd1d ^ seed.wrapping_mul(0x1000_0000_01b3) | 1);
+        let rt = tokio::runtime::Builder::new_current_thread().enable_all().build().expect("runtime");
+        rt.block_on(async {
+            let mut e = DhtCoreEngine::new_for_tests(NodeId::from_bytes([0u8; 32])).expect("engine");
+            // 30 peers in distinct /16s spread over the top buckets
+            for i in 0..30u8 {
+                let mut id = r.bytes();
+                id[0] = 0x80 >> (i % 6);
+                id[31] = i;
+                let mut n = mk_node(id);
+                n.address = format!("10.{}.0.1:9000", i + 1);
+                let _ = e.add_node(n).await;
+            }
+            let mut shadow: std::collections::HashMap<[u8; 32], Vec<u8>> = std::collections::HashMap::new();
+            for round in 0..200usize {
+                let key = { let mut k = r.bytes(); k[0] = (round % 7) as u8; k[1..].iter_mut().for_each(|b| *b = 0); k };
+                let len = match r.below(8) { 0 => 512, 1 => 513, 2 => 511, 3 => 1024, 4 => 0, 5 => 70_000, _ => r.below(700) as usize };
+                let value: Vec<u8> = (0..len).map(|i| (i as u8) ^ (round as u8)).collect();
+                let id = format!("req-{}", round);
+                let resp = e.handle_request(DhtRequestWrapper { id: id.clone(), message: DhtMessage::Store { key: DhtKey::from_bytes(key), value: value.clone(), ttl: std::time::Duration::from_secs(60) } }).await;
+                let refused = matches!(resp.response, DhtResponse::Error { .. });
+                if len > 512 && !refused {
+                    panic!("VERIF-SEARCH-HIT C05/request/a_stored_value_over_512_bytes_is_refused_and_never_enters_the_store request=Store value_len={} reply={:?}", len, resp.response);
+                }
+                if !refused { shadow.insert(key, value.clone()); }
+                // what is retrievable is exactly what was accepted
+                let got = e.handle_request(DhtRequestWrapper { id: id.clone(), message: DhtMessage::Retrieve { key: DhtKey::from_bytes(key), consistency: ConsistencyLevel::One } }).await;
+                let stored = match got.response { DhtResponse::RetrieveReply { value } => value, other => panic!("VERIF-SEARCH-HIT C05/request/retrieve_returns_exactly_the_stored_bytes_or_nothing reply={:?}", other) };
+                if stored.as_ref().map(|v| v.len() > 512).unwrap_or(false) {
+                    panic!("VERIF-SEARCH-HIT C05/request/a_stored_value_over_512_bytes_is_refused_and_never_enters_the_store request=Store value_len={} then Retrieve returns {} bytes", len, stored.as_ref().map(|v| v.len()).unwrap_or(0));
+                }
+                if stored.as_ref() != shadow.get(&key) {
+                    panic!("VERIF-SEARCH-HIT C05/request/retrieve_returns_exactly_the_stored_bytes_or_nothing key[0]={} stored_len={:?} expected_len={:?}", key[0], stored.as_ref().map(|v| v.len()), shadow.get(&key).map(|v| v.len()));
+                }
+                // find-node: any count, never more than 20 names
+                let count = match r.below(6) { 0 => usize::MAX, 1 => 21, 2 => 20, 3 => 1000, _ => r.below(40) as usize };
+                let fr = e.handle_request(DhtRequestWrapper { id: id.clone(), message: DhtMessage::FindNode { target: DhtKey::from_bytes(r.bytes()), count } }).await;
+                if fr.id != id {
+                    panic!("VERIF-SEARCH-HIT C05/request/reply_id request={} reply={}", id, fr.id);
+                }
+                match fr.response {
+                    DhtResponse::FindNodeReply { nodes, .. } => {
+                        if nodes.len() > 20 || nodes.len() > count {
+                            panic!("VERIF-SEARCH-HIT C05/request/a_find_node_reply_never_names_more_than_20_nodes_whatever_count_was_asked request=FindNode count={} reply names {} nodes", count, nodes.len());
+                        }
+                    }
+                    other => panic!("VERIF-SEARCH-HIT C05/request/a_find_node_reply_never_names_more_than_20_nodes_whatever_count_was_asked reply={:?}", other),
+                }
+            }
+        });
+    }
+
+    /// C16 (routing): a failed / evicted peer leaves the routing table, nobody else does.
+    #[test]
+    fn verif_search_c16_route() {
+        let seed: u64 = std::env::var("VERIF_SEED").ok().and_then(|s| s.parse().ok()).unwrap_or(0);
+        let mut r = Rng(0x9e37_79b9_7f4a_7c15 ^ seed.wrapping_mul(0x1000_0000_01b3) | 1);
+        let rt = tokio::runtime::Builder::new_current_thread().enable_all().build().expect("runtime");
+        rt.block_on(async {
+            for round in 0..20usize {
+                let mut e = DhtCoreEngine::new_for_tests(NodeId::from_bytes([0u8; 32])).expect("engine");
+                let mut ids: Vec<[u8; 32]> = Vec::new();
+                for i in 0..24u8 {
+                    let mut id = r.bytes();
+                    id[0] = 0x80 >> (i % 6);
+                    id[31] = i;
+                    let mut n = mk_node(id);
+                    n.address = format!("10.{}.0.1:9000", i + 1);
+                    if e.add_node(n).await.is_ok() { ids.push(id); }
+                }
+                for step in 0..ids.len() {
+                    let victim = ids[r.below(ids.len() as u64) as usize];
+                    let before = { let t = e.routing_table.read().await; all_ids(&t) };
+                    let by_failure = r.below(2) == 0;
+                    if by_failure {
+                        let _ = e.handle_node_failure(NodeId::from_bytes(victim)).await;
+                    } else {
+                        let _ = e.evict_node(&NodeId::from_bytes(victim), crate::dht::routing_maintenance::EvictionReason::ConsecutiveFailures(3)).await;
+                    }
+                    let after = { let t = e.routing_table.read().await; all_ids(&t) };
+                    let what = if by_failure { "a_failed_peer_is_no_longer_listed_in_the_routing_table" } else { "an_evicted_peer_is_no_longer_listed_in_the_routing_table" };
+                    if after.contains(&victim) {
+                        panic!("VERIF-SEARCH-HIT C16/route/{} round={} step={} victim={}", what, round, step, hex(&victim));
+                    }
+                    let what2 = if by_failure { "a_failure_removes_no_other_peer" } else { "eviction_removes_no_other_peer" };
+                    if before.iter().any(|x| *x != victim && !after.contains(x)) || after.iter().any(|x| !before.contains(x)) {
+                        panic!("VERIF-SEARCH-HIT C16/route/{} round={} step={} victim={} before={} after={}", what2, round, step, hex(&victim), before.len(), after.len());
+                    }
                 }
             }
         });
